@@ -3,7 +3,7 @@
 From Coq Require Import List ZArith Bool Arith Lia.
 From SC Require Import Base.Res Base.PyList Inst.Heap Inst.ClassTable Inst.Model Inst.Framed
   Inst.TypeProofs Inst.OwnProofs Inst.OwnProofs2 Inst.OwnProofs3 Inst.OwnColl Inst.OwnCopy Inst.OwnCow
-  Inst.OwnInit Inst.OwnMore.
+  Inst.OwnInit Inst.OwnMore Inst.OwnInval.
 Import ListNotations.
 Open Scope nat_scope.
 Set Warnings "-unused-intro-pattern".
@@ -467,4 +467,152 @@ Proof.
       assert (Hin : In sp (c_attrs k)) by (eapply lookup_attr_in; eauto).
       specialize (H3 _ Hin). apply andb_true_iff in H3. destruct H3.
       split; [now apply leaf_attr_b_sound|now apply default_ok_b_sound].
+Qed.
+
+
+(* ------------------------------------------------------------------ *)
+(** * invalidated_by *)
+(* every class either declares no invalidated_by, or has only leaf attributes with a scalar /
+   factory-of-scalars default *)
+Definition inval_ok_b (ct : ctable) : bool :=
+  forallb (fun k =>
+    forallb (fun sp => match a_inv_by sp with [] => true | _ => false end) (c_attrs k) ||
+    forallb (fun sp => leaf_attr_b sp && default_ok_b k sp) (c_attrs k)) ct.
+
+Lemma inval_ok_b_sound ct : inval_ok_b ct = true -> inval_ok ct.
+Proof.
+  unfold inval_ok_b, inval_ok. rewrite forallb_forall. intros H k Hk. specialize (H _ Hk).
+  apply orb_true_iff in H. destruct H as [H|H]; rewrite forallb_forall in H.
+  - left. intros sp Hsp. specialize (H _ Hsp). destruct (a_inv_by sp); auto; discriminate.
+  - right. intros a sp Ha. assert (Hin : In sp (c_attrs k)) by (eapply lookup_attr_in; eauto).
+    specialize (H _ Hin). apply andb_true_iff in H. destruct H.
+    split; [now apply leaf_attr_b_sound|now apply default_ok_b_sound].
+Qed.
+
+Lemma no_inval_ok_b ct : no_inval_b ct = true -> inval_ok_b ct = true.
+Proof.
+  unfold no_inval_b, inval_ok_b. rewrite !forallb_forall. intros H k Hk. rewrite (H k Hk). reflexivity.
+Qed.
+
+(* the final combined statement: tables with invalidated_by included *)
+Theorem step_preserves_owned_h ct roots o s :
+  flat_table ct -> inval_ok_b ct = true -> no_reserved_b ct = true ->
+  owned_opg_b ct (heap s) roots o = true ->
+  TypeInv ct s -> Owned ct (heap s) ->
+  TypeInv ct (snd (step ct roots o s)) /\ Owned ct (heap (snd (step ct roots o s))).
+Proof.
+  intros Hf Hn Hr Hop T O.
+  pose proof (inval_ok_spec ct Hf (inval_ok_b_sound ct Hn)) as Hn'.
+  pose proof (no_reserved_b_sound ct Hr) as Hr'.
+  assert (I : Inv ct (heap s)) by (split; auto).
+  change (Inv ct (heap (snd (step ct roots o s)))).
+  (* the operation lemmas only need inval_spec: replay the three case analyses *)
+  unfold owned_opg_b, owned_opf_b in Hop. rewrite !orb_true_iff in Hop.
+  destruct Hop as [[Hop|Hop]|Hop].
+  - (* owned_opa_b *)
+    destruct o as [| x a v | | x hp hh | x | ob]; simpl in Hop; try discriminate.
+    + apply andb_true_iff in Hop. destruct Hop as [H1 H2].
+      apply step_setattr_any; auto; [now apply loose_b_iff|now apply recv_leafa_b_sound].
+    + destruct hp; try discriminate.
+      * rewrite !andb_true_iff in Hop. destruct Hop as [[H1 H2] H3].
+        assert (Hkw : h_kw hh = None) by (destruct (h_kw hh); auto; discriminate).
+        apply loose_b_iff in H2.
+        destruct (h_inplace hh) eqn:Hin.
+        -- apply step_with_inplace_any; auto. now apply recv_leafa_b_sound.
+        -- unfold step. destruct (nth x roots VNone) as [| | | | | | | |l] eqn:Er; try exact I.
+           cbn [loc_of]. rewrite bind_ret_l.
+           destruct (recv_flat_b_sound ct (heap s) l a false H3) as (cl & d & k & FR & Hla & _).
+           eapply with_cow; eauto.
+      * rewrite !andb_true_iff in Hop. destruct Hop as [H1 H3].
+        assert (Hkw : h_kw hh = None) by (destruct (h_kw hh); auto; discriminate).
+        destruct (h_inplace hh) eqn:Hin.
+        -- apply andb_true_iff in H3. destruct H3 as [H3 H4].
+           apply step_with_item_inplace_coll; auto.
+           intros l El. split; [eapply recv_leafc_b_sound; eauto|].
+           exact (dflt_missing_b_sound ct (heap s) _ a H4 l El).
+        -- unfold step. destruct (nth x roots VNone) as [| | | | | | | |l] eqn:Er; try exact I.
+           cbn [loc_of]. rewrite bind_ret_l.
+           destruct (recv_flat_b_sound ct (heap s) l a true H3) as (cl & d & k & FR & Hla & D).
+           eapply with_item_cow; eauto.
+      * destruct (h_inplace hh) eqn:Hin.
+        -- apply andb_true_iff in Hop. destruct Hop as [H3 H4].
+           apply step_without_item_inplace_coll; auto.
+           intros l El. split; [eapply recv_leafc_b_sound; eauto|].
+           exact (dflt_missing_b_sound ct (heap s) _ a H4 l El).
+        -- unfold step. destruct (nth x roots VNone) as [| | | | | | | |l] eqn:Er; try exact I.
+           cbn [loc_of]. rewrite bind_ret_l.
+           destruct (recv_flat_b_sound ct (heap s) l a true Hop) as (cl & d & k & FR & Hla & D).
+           eapply without_item_cow; eauto.
+    + unfold step. apply deepcopy_flat; auto.
+      destruct (nth x roots VNone) as [| | | | | | | |l]; auto. simpl in Hop.
+      destruct (nth_error (heap s) l) as [o|] eqn:N; [|discriminate].
+      destruct o as [xs|kvs|xs|cl d].
+      * right. exists (OList xs). split; auto. split; [now apply norefs_b_sound|simpl; lia].
+      * right. exists (ODict kvs). split; auto. split; [now apply norefs_b_sound|simpl; lia].
+      * right. exists (OSet xs). split; auto. split; [now apply norefs_b_sound|simpl; lia].
+      * left. destruct (lookup_cls ct cl) as [k|] eqn:Hk; [|discriminate].
+        apply andb_true_iff in Hop. destruct Hop as [H1 H2]. exists cl, d, k.
+        apply FI_of_Inv; auto; [now apply flat_class_b_sound|now apply keys_managed_b_sound].
+    + apply andb_true_iff in Hop. destruct Hop as [H1 H2]. simpl.
+      apply Inv_alloc; auto; [now apply Nat.ltb_lt|now apply norefs_b_sound].
+  - (* constructor, del, reset_<a> in place *)
+    destruct o as [c pos kw| | x a | x hp hh | |]; try discriminate.
+    + rewrite !andb_true_iff in Hop. destruct Hop as [[H1 H2] H3].
+      destruct (ctor_class_b_sound ct c H1) as [k Hc].
+      eapply step_construct; eauto; [now apply kw_flat_b_sound|].
+      destruct pos; auto. now apply flat_val_b_sound.
+    + apply step_delattr; auto. now apply del_ok_b_sound.
+    + destruct hp; try discriminate. apply andb_true_iff in Hop. destruct Hop as [H1 H2].
+      apply step_reset_inplace; auto. now apply del_ok_b_sound.
+  - (* update_ / transform_ / reset *)
+    destruct o as [| | | x hp hh | |]; try discriminate.
+    unfold step. destruct (nth x roots VNone) as [| | | | | | | |l] eqn:Er;
+      try (destruct hp; exact I).
+    cbn [loc_of]. rewrite bind_ret_l.
+    destruct hp; try discriminate.
+    + rewrite !andb_true_iff in Hop. destruct Hop as [[[H1 H2] H3] H4].
+      assert (Hkw : h_kw hh = None) by (destruct (h_kw hh); auto; discriminate).
+      apply negb_true_iff in H2. apply loose_b_iff in H3.
+      destruct (h_inplace hh) eqn:Hin.
+      * apply update_inplace; auto. eapply recv_leafa_b_sound; eauto.
+      * destruct (recv_flat_b_sound ct (heap s) l a false H4) as (cl & d & k & FR & Hla & _).
+        eapply update_cow; eauto.
+    + rewrite !andb_true_iff in Hop. destruct Hop as [[[[H1 H2] H3] H4] H5].
+      apply negb_true_iff in H1.
+      assert (Hkf : h_kwfn hh = []) by (destruct (h_kwfn hh); auto; discriminate).
+      destruct (recv_flat_b_sound ct (heap s) l a false H4) as (cl & d & k & FR & Hla & _).
+      eapply transform_cow; eauto; [now apply oqfn_b_sound|].
+      intros As. destruct FR as (N & Hk & _). simpl in H5. rewrite N, Hk, As in H5. now apply nonref_b_sound.
+    + rewrite !andb_true_iff in Hop. destruct Hop as [[H1 H2] H3]. apply negb_true_iff in H1.
+      destruct (recv_flat_b_sound ct (heap s) l a false H2) as (cl & d & k & FR & _ & _).
+      destruct (del_ok_b_sound ct (heap s) (VRef l) a H3 l eq_refl) as (cl' & k' & [d' N'] & Hk' & Hla).
+      destruct FR as (N & Hk & Fc & Km). rewrite N in N'. inversion N'; subst cl' d'.
+      rewrite Hk in Hk'. inversion Hk'; subst k'.
+      apply (reset_cow ct Hf Hn' Hr' l a hh s cl d k); auto. split; auto.
+    + rewrite !andb_true_iff in Hop. destruct Hop as [H1 H3].
+      assert (Hkw : h_kw hh = None) by (destruct (h_kw hh); auto; discriminate).
+      destruct (h_inplace hh) eqn:Hin.
+      * apply andb_true_iff in H3. destruct H3 as [H3 H4].
+        apply update_item_inplace; auto; [eapply recv_leafc_b_sound; eauto|].
+        exact (dflt_missing_b_sound ct (heap s) _ a H4 l eq_refl).
+      * destruct (recv_flat_b_sound ct (heap s) l a true H3) as (cl & d & k & FR & Hla & D).
+        eapply update_item_cow; eauto.
+    + rewrite !andb_true_iff in Hop. destruct Hop as [[H1 H2] H3].
+      assert (Hkf : h_kwfn hh = []) by (destruct (h_kwfn hh); auto; discriminate).
+      apply oqfn_b_sound in H2.
+      destruct (h_inplace hh) eqn:Hin.
+      * apply andb_true_iff in H3. destruct H3 as [H3 H4].
+        apply transform_item_inplace; auto; [eapply recv_leafc_b_sound; eauto|].
+        exact (dflt_missing_b_sound ct (heap s) _ a H4 l eq_refl).
+      * destruct (recv_flat_b_sound ct (heap s) l a true H3) as (cl & d & k & FR & Hla & D).
+        eapply transform_item_cow; eauto.
+    + simpl in Hop. destruct (nth_error (heap s) l) as [[| | |cl d]|] eqn:N; try discriminate.
+      destruct (lookup_cls ct cl) as [k|] eqn:Hk; [|discriminate].
+      rewrite !andb_true_iff in Hop. destruct Hop as [[H1 H2] H3].
+      eapply (reset_all ct Hf Hn' Hr' l hh s cl d k); auto.
+      * split; auto. split; auto. split; [now apply flat_class_b_sound|now apply keys_managed_b_sound].
+      * intros a sp Ha. rewrite forallb_forall in H3.
+        assert (Hin : In sp (c_attrs k)) by (eapply lookup_attr_in; eauto).
+        specialize (H3 _ Hin). apply andb_true_iff in H3. destruct H3.
+        split; [now apply leaf_attr_b_sound|now apply default_ok_b_sound].
 Qed.
